@@ -1100,17 +1100,36 @@ class DomainMapping(CanBehaveLikeAVariable[T], ABC):
         if self._id_ in sources:
             yield sources
             return
+        is_a_condition = self._is_in_condition_position_()
         child_val = self._child_._evaluate__(sources, yield_when_false=self._yield_when_false_)
         for child_v in child_val:
             for v in self._apply_mapping_(child_v[self._child_._id_]):
                 values = copy(child_v)
-                if (not self._invert_ and v.value) or (self._invert_ and not v.value):
+                if not is_a_condition:
+                    # used as a value (operand, selected output, argument): the value is passed on whatever
+                    # its truthiness is.
+                    self._is_false_ = False
+                elif (not self._invert_ and v.value) or (self._invert_ and not v.value):
                     self._is_false_ = False
                 else:
                     self._is_false_ = True
                 if self._yield_when_false_ or not self._is_false_:
                     values[self._id_] = v
                     yield values
+
+    def _is_in_condition_position_(self) -> bool:
+        """
+        :return: True if this mapping stands where a condition is expected (so its value is interpreted as a boolean),
+         False if it is used as a value by its parent.
+        """
+        parent = self._parent_
+        if isinstance(parent, LogicalOperator):
+            return True
+        if isinstance(parent, QueryObjectDescriptor) and parent._child_ is self:
+            return True
+        if isinstance(parent, ForAll) and parent.condition is self:
+            return True
+        return False
 
     @abstractmethod
     def _apply_mapping_(self, value: HashedValue) -> Iterable[HashedValue]:
